@@ -50,14 +50,55 @@ KINDS = {"Body": "KBody", "Div": "KDiv", "P": "KP", "Span": "KSpan", "Ruby": "KR
          "Rbc": "KRbc", "Rtc": "KRtc", "Br": "KBr", "Region": "KRegion"}
 
 
-def anim_lit(lit, step):
-    import ttconv.imsc.style_properties as isp
-    cls = isp.StyleProperties.BY_MODEL_PROP[step.style_property]
-    qn = lit.qn(f"{{{cls.ns}}}{cls.local_name}")
-    return f"({qn},[],{C.q(step.begin) if step.begin is not None else '(Qmake 0 1)'},{C.opt(step.end, C.q)})"
+OPAQUE = ("FontFamily", "Opacity", "LuminanceGain")
 
 
-def node_lit(lit, e):
+class StyleLit:
+    """literals of specified style values (Base/ImscXml.v sv): parsed values through imsc_docgen.sval_lit, the three properties whose
+    value syntax is not modelled through a per-document table value -> number (built from the code's extract on every such attribute)"""
+    def __init__(self, lit, tt):
+        import ttconv.imsc.style_properties as isp
+        import imsc_docgen as DG
+        self.DG = DG; self.names = DG.prop_names(); self.values = []; self.rows = []
+        seen = set()
+        for e in tt.iter():
+            for k, v in e.attrib.items():
+                cls = isp.StyleProperties.BY_QNAME.get(k)
+                if cls is None or cls.model_prop.__name__ not in OPAQUE or (k, v) in seen: continue
+                seen.add((k, v))
+                try:
+                    val = cls.extract(None, v)
+                    if not cls.model_prop.validate(val): raise ValueError("invalid")
+                    i = self.ident(val)
+                    self.rows.append(f"({lit.qn(k)},{C.text(v)},Some {i})")
+                except (ValueError, KeyError):
+                    self.rows.append(f"({lit.qn(k)},{C.text(v)},None)")
+
+    def ident(self, val):
+        for i, w in enumerate(self.values):
+            if type(w) is type(val) and w == val: return i
+        self.values.append(val); return len(self.values) - 1
+
+    def table(self):
+        return "[" + ";".join(self.rows) + "]"
+
+    def sv(self, prop, v):
+        if prop.__name__ in OPAQUE:
+            for i, w in enumerate(self.values):
+                if type(w) is type(v) and w == v: return f"(SO {i})"
+            return "(SO (-1))"
+        return f"(SV {self.DG.sval_lit(prop, v, self.DG.qrepr)})"
+
+    def sdict(self, items):
+        return "[" + ";".join(f"({self.names.index(p.__name__)},{self.sv(p, v)})" for p, v in items) + "]"
+
+
+def anim_lit(sl, step):
+    return (f"({sl.names.index(step.style_property.__name__)},{sl.sv(step.style_property, step.value)},"
+            f"{C.q(step.begin) if step.begin is not None else '(Qmake 0 1)'},{C.opt(step.end, C.q)})")
+
+
+def node_lit(lit, e, sl):
     import ttconv.model as m
     if isinstance(e, m.Text):
         return f"(T {C.text(e.get_text())})"
@@ -68,19 +109,20 @@ def node_lit(lit, e):
         b, en = e.get_begin(), e.get_end()
     rid = e.get_id() if isinstance(e, m.Region) else None
     reg = None if isinstance(e, (m.Region, m.Br)) or e.get_region() is None else e.get_region().get_id()
-    anims = "[" + ";".join(anim_lit(lit, s) for s in e.iter_animation_steps()) + "]"
-    kids = "[" + ";".join(node_lit(lit, c) for c in e) + "]"
+    anims = "[" + ";".join(anim_lit(sl, s) for s in e.iter_animation_steps()) + "]"
+    kids = "[" + ";".join(node_lit(lit, c, sl) for c in e) + "]"
+    styles = sl.sdict([(p, e.get_style(p)) for p in e.iter_styles()])
     return (f"(E {k} {C.opt(rid, C.text)} {C.opt(b, C.q)} {C.opt(en, C.q)} {C.boolean(e.get_space().value == 'preserve')} "
-            f"{C.text(e.get_lang() or '')} {C.opt(reg, C.text)} {anims} {kids})")
+            f"{C.text(e.get_lang() or '')} {C.opt(reg, C.text)} {styles} {anims} {kids})")
 
 
-def doc_lit(lit, doc):
-    regs = "[" + ";".join(node_lit(lit, r) for r in doc.iter_regions()) + "]"
+def doc_lit(lit, doc, sl):
+    regs = "[" + ";".join(node_lit(lit, r, sl) for r in doc.iter_regions()) + "]"
     body = doc.get_body()
-    return f"(DOk (mkRdoc {C.text(doc.get_lang())} {regs} {C.opt(body, lambda b: node_lit(lit, b))}))"
+    return f"(DOk (mkRdoc {C.text(doc.get_lang())} {regs} {C.opt(body, lambda b: node_lit(lit, b, sl))} {sl.sdict(list(doc.iter_initial_values()))}))"
 
 
-EXC_CODES = {"TypeError": 1, "ZeroDivisionError": 2}
+EXC_CODES = {"TypeError": 1, "ZeroDivisionError": 2, "ValueError": 5}
 
 
 class LogCapture(logging.Handler):
@@ -245,7 +287,7 @@ class DocGen:
         tr_attr = rng_.choice([None, None, 1, 10, 1000, 90000, 10000000])
         self.ctx = TimeCtx(fr_attr, frm, tr_attr)
         self.allow_tick = (not self.ctx.tick_default_differs) or rng_.random() < p_tick_trigger
-        self.regions = []
+        self.regions = []; self.style_ids = []
 
     # -- times
     def grid(self, hi):
@@ -286,6 +328,7 @@ class DocGen:
         if tag != "br" and self.regions and rng.random() < 0.3:
             el.set("region", rng.choice(self.regions) if rng.random() < 0.93 else "nowhere")
         if tag != "br" and rng.random() < 0.05: el.set(q(NS_TTS, "display"), rng.choice(["none", "auto"]))
+        if self.style_ids and rng.random() < 0.2: el.set("style", " ".join(rng.choice(self.style_ids + ["nope"]) for _ in range(rng.randint(1, 2))))
 
     def text(self):
         self.ntext += 1
@@ -387,7 +430,12 @@ class DocGen:
         nreg = rng.choice([0, 0, 1, 1, 2, 3])
         if nreg or rng.random() < 0.1:
             head = et.SubElement(tt, q(NS_TT, "head"))
-            if rng.random() < 0.2: et.SubElement(head, q(NS_TT, "styling"))
+            if rng.random() < 0.3:
+                sty = et.SubElement(head, q(NS_TT, "styling"))
+                for j in range(rng.randint(0, 3)):
+                    st = et.SubElement(sty, q(NS_TT, "style")); st.set(q(NS_XML, "id"), f"s{j}"); self.style_ids.append(f"s{j}")
+                    st.set(q(NS_TTS, rng.choice(["color", "fontStyle", "textAlign"])), rng.choice(["red", "italic", "center"]))   # wrong pairs are malformed values
+                    if j and rng.random() < 0.5: st.set("style", f"s{rng.randrange(j)}")
             lay = et.SubElement(head, q(NS_TT, "layout"))
             for i in range(nreg):
                 r = et.SubElement(lay, q(NS_TT, "region")); rid = f"r{i}"
@@ -400,6 +448,7 @@ class DocGen:
             body = et.SubElement(tt, q(NS_TT, "body"))
             if rng.random() < 0.4: self.timing(body)
             self.container(body, "body", 0)
+            if self.regions and rng.random() < 0.5: body.set("region", rng.choice(self.regions))      # otherwise most content is in no region
         return tt
 
 
@@ -484,3 +533,175 @@ def probe_times(tt, table, ctx, doc, rng, cap=24):
         keep = set(rng.sample(pts, cap - 2)) | {pts[0], pts[-1]}
         pts = sorted(keep)
     return pts
+
+
+# ---------------------------------------------------------------------------------------------------------
+# style documents: style graphs (chains, diamonds, missing and duplicate ids, rare loops), nested styles of regions, initial
+# elements, inline attributes; every value comes from a table of well-formed / malformed strings per attribute
+PROP_VALUES = {
+    (NS_TTS, "backgroundColor"): (["red", "#00ff00", "#0000ff80", "rgb(1,2,3)", "rgba(1,2,3,4)", "transparent", "Blue"], ["notacolor", "#12", "rgb(1,2)"]),
+    (NS_TTS, "color"): (["white", "#ffff00", "#ff000080", "rgb(10, 20, 30)", "lime"], ["notacolor", "#ggg"]),
+    (NS_TTS, "direction"): (["ltr", "rtl"], ["up"]),
+    (NS_TTS, "disparity"): (["1px", "-2%", "0.5em"], ["1", "x"]),
+    (NS_TTS, "display"): (["auto", "auto", "none"], ["block"]),
+    (NS_TTS, "displayAlign"): (["before", "center", "after"], ["middle"]),
+    (NS_TTS, "extent"): (["50% 20%", "640px 480px", "10c 2c", "auto", "1rw 1rh"], ["50%", "a b", "1em 1em"]),
+    (NS_ITTS, "fillLineGap"): (["true", "false"], []),
+    (NS_TTS, "fontFamily"): (["Arial", "monospaceSerif, Arial", "\"Times New Roman\"", "default", "sansSerif"], [""]),
+    (NS_TTS, "fontSize"): (["100%", "1c", "16px", "1.5em", "2rh"], ["big", "12"]),
+    (NS_TTS, "fontStyle"): (["normal", "italic", "oblique"], ["slanted"]),
+    (NS_TTS, "fontWeight"): (["normal", "bold"], ["heavy"]),
+    (NS_TTS, "lineHeight"): (["normal", "125%", "1.2em", "20px"], ["tall"]),
+    (NS_EBUTTS, "linePadding"): (["0.5c", "1c"], ["1px", "x"]),
+    (NS_TTS, "luminanceGain"): (["1.0", "0.5", "2"], ["bright"]),
+    (NS_EBUTTS, "multiRowAlign"): (["start", "center", "end", "auto"], ["left"]),
+    (NS_TTS, "opacity"): (["1.0", "0.5", "0"], ["opaque"]),
+    (NS_TTS, "origin"): (["10% 10%", "0px 0px", "auto", "2c 3c"], ["10%", "1em 1em"]),
+    (NS_TTS, "overflow"): (["visible", "hidden"], ["scroll"]),
+    (NS_TTS, "padding"): (["1c", "1% 2%", "1px 2px 3px", "1px 2px 3px 4px"], ["1", "1px 2px 3px 4px 5px"]),
+    (NS_TTS, "position"): (["center", "left top", "10% 20%", "right 10px bottom 5%", "top"], ["10"]),
+    (NS_TTS, "rubyAlign"): (["center", "spaceAround"], ["left"]),
+    (NS_TTS, "rubyPosition"): (["before", "after", "outside"], ["under"]),
+    (NS_TTS, "rubyReserve"): (["none", "both", "before 1em", "outside 50%"], ["x", "both 1"]),
+    (NS_TTS, "shear"): (["0%", "16.67%", "-10%"], ["10", "1em"]),
+    (NS_TTS, "showBackground"): (["always", "whenActive"], ["never"]),
+    (NS_TTS, "textAlign"): (["start", "center", "end", "left", "right"], ["justify"]),
+    (NS_TTS, "textCombine"): (["none", "all"], ["some"]),
+    (NS_TTS, "textDecoration"): (["none", "underline", "noUnderline lineThrough", "overline noLineThrough"], []),
+    (NS_TTS, "textEmphasis"): (["none", "auto", "filled circle", "open dot before", "sesame red after", "filled"], ["x y"]),
+    (NS_TTS, "textOutline"): (["none", "1px", "red 2px", "#00ff00 10%"], ["red", "1px red"]),
+    (NS_TTS, "textShadow"): (["none", "1px 1px", "1px 1px 2px", "1px 1px red", "1px 1px 2px red", "1px 1px,2px 2px"], ["1px"]),
+    (NS_TTS, "unicodeBidi"): (["normal", "embed", "bidiOverride"], ["isolate"]),
+    (NS_TTS, "visibility"): (["visible", "hidden"], ["collapse"]),
+    (NS_TTS, "wrapOption"): (["wrap", "noWrap"], ["nowrap"]),
+    (NS_TTS, "writingMode"): (["lrtb", "rltb", "tbrl", "tblr", "lr", "rl", "tb"], ["bt"]),
+}
+# values that are well-formed TTML but that the reader does not accept / that abort the read: the triggers of recorded findings
+SHADOW_COMMA_SPACE = "1px 1px, 2px 2px"
+MODEL_INVALID = {((NS_TTS, "extent"), "1em 1em"), ((NS_TTS, "origin"), "1em 1em")}
+
+
+class StyleDocGen:
+    def __init__(self, rng, p_bad=0.08, p_trigger=0.02):
+        self.rng = rng; self.p_bad = p_bad; self.p_trigger = p_trigger
+        self.wf = {}; self.flags = set(); self.ntext = 0; self.regions = []; self.ids = []
+        self.keys = sorted(PROP_VALUES)
+
+    def put(self, el, n, in_style=False):
+        rng = self.rng
+        for key in rng.sample(self.keys, n):
+            good, bad = PROP_VALUES[key]
+            if bad and rng.random() < self.p_bad:
+                v = rng.choice(bad); ok = False
+                if (key, v) in MODEL_INVALID:
+                    if rng.random() > self.p_trigger * 5: continue
+                    if in_style: self.flags.add("style-invalid-value")
+            elif key == (NS_TTS, "textShadow") and rng.random() < self.p_trigger:
+                v = SHADOW_COMMA_SPACE; ok = True; self.flags.add("textshadow-comma-space")
+            else:
+                v = rng.choice(good); ok = True
+            name = q(*key)
+            el.set(name, v); self.wf[(name, v)] = ok
+
+    def count(self):
+        rng = self.rng; n = 0
+        while rng.random() < 0.45 and n < 5: n += 1
+        return n
+
+    def refs(self, el, p=0.35):
+        rng = self.rng
+        if not self.ids or rng.random() > p: return
+        pool = self.ids + (["nope"] if rng.random() < 0.15 else [])
+        el.set("style", " ".join(rng.choice(pool) for _ in range(rng.randint(1, 3))))
+
+    def text(self):
+        self.ntext += 1; return f"T{self.ntext}"
+
+    def content(self, el, tag, depth):
+        rng = self.rng
+        if rng.random() < 0.4: self.put(el, self.count())
+        self.refs(el)
+        if self.regions and tag != "br" and rng.random() < 0.2: el.set("region", rng.choice(self.regions))
+        if tag == "br": return
+        if tag in ("p", "span"):
+            el.text = self.text()
+            for _ in range(rng.randint(0, 2) if depth < 4 else 0):
+                k = rng.choice(["span", "span", "br"])
+                c = et.SubElement(el, q(NS_TT, k)); self.content(c, k, depth + 1)
+                if rng.random() < 0.5: c.tail = self.text()
+            return
+        kids = {"body": ["div"], "div": ["p", "p", "div"]}[tag]
+        for _ in range(rng.randint(1, 3)):
+            k = rng.choice(kids)
+            if depth >= 3: k = "p" if tag == "div" else "div"
+            c = et.SubElement(el, q(NS_TT, k)); self.content(c, k, depth + 1)
+        if tag == "div" and not any(_local(c) == "p" for c in el.iter() if c is not el):
+            c = et.SubElement(el, q(NS_TT, "p")); self.content(c, "p", depth + 1)
+
+    def document(self):
+        rng = self.rng
+        tt = et.Element(q(NS_TT, "tt")); tt.set(q(NS_XML, "lang"), "en")
+        head = et.SubElement(tt, q(NS_TT, "head"))
+        styling = et.SubElement(head, q(NS_TT, "styling"))
+        for _ in range(rng.choice([0, 0, 1, 2])):
+            self.put(et.SubElement(styling, q(NS_TT, "initial")), rng.randint(1, 3))
+        nst = rng.choice([0, 1, 2, 3, 4, 6])
+        names = [f"s{i}" for i in range(nst)]
+        for i, name in enumerate(names):
+            st = et.SubElement(styling, q(NS_TT, "style"))
+            r = rng.random()
+            if r < 0.9: st.set(q(NS_XML, "id"), name)
+            elif r < 0.95 and i: st.set(q(NS_XML, "id"), names[rng.randrange(i)])      # duplicate id
+            self.put(st, self.count(), in_style=True)
+            if i and rng.random() < 0.5:
+                pool = names[:i] if rng.random() < 0.9 else names                 # mostly a DAG; sometimes forward references and loops
+                refs = [rng.choice(pool + (["missing"] if rng.random() < 0.1 else [])) for _ in range(rng.randint(1, 3))]
+                st.set("style", " ".join(refs))
+        self.ids = names
+        lay = et.SubElement(head, q(NS_TT, "layout"))
+        for i in range(rng.choice([0, 1, 2, 3])):
+            r = et.SubElement(lay, q(NS_TT, "region")); r.set(q(NS_XML, "id"), f"r{i}"); self.regions.append(f"r{i}")
+            for _ in range(rng.choice([0, 0, 1, 2])):
+                self.put(et.SubElement(r, q(NS_TT, "style")), rng.randint(1, 3), in_style=True)
+            if rng.random() < 0.5: self.put(r, self.count())
+            self.refs(r, 0.4)
+        body = et.SubElement(tt, q(NS_TT, "body")); self.content(body, "body", 0)
+        return tt
+
+
+def style_observation(tt, doc):
+    """the code's specified styles for the regions and the body elements in document order, and the initial values; None when the
+    model tree does not mirror the XML tree (reported by the caller)"""
+    import ttconv.model as m
+    out = []
+    for r in tt.iter(q(NS_TT, "region")):
+        rid = r.get(q(NS_XML, "id"))
+        if rid is None: continue
+        mr = doc.get_region(rid)
+        if mr is None: return None
+        out.append(mr)
+    def known(e):
+        if not (isinstance(e.tag, str) and e.tag.startswith("{" + NS_TT + "}")): return False
+        l = _local(e)
+        if l == "span": return e.get(q(NS_TTS, "ruby")) in RUBY_MIXED
+        return l in ("body", "div", "p", "br")
+    def mixed(e):
+        l = _local(e)
+        return l == "p" or (l == "span" and RUBY_MIXED.get(e.get(q(NS_TTS, "ruby")), False))
+    ok = [True]
+    def walk(x, me):
+        out.append(me)
+        seq = []
+        if mixed(x) and x.text is not None: seq.append(None)
+        for c in x:
+            if known(c): seq.append(c)
+            if mixed(x) and c.tail is not None: seq.append(None)
+        kids = list(me)
+        if len(kids) != len(seq): ok[0] = False; return
+        for c, mk in zip(seq, kids):
+            if c is not None: walk(c, mk)
+    body = tt.find(q(NS_TT, "body"))
+    if body is not None:
+        if doc.get_body() is None: return None
+        walk(body, doc.get_body())
+    return out if ok[0] else None
